@@ -172,7 +172,9 @@ NASTIES = [NASTY, NASTY2, "a > b", "]]>", "R&amp;D", "&#65;BC", "&#x41;", "&lt;t
            "<![CDATA[x]]>", "<!--c-->", "<?pi x?>", "%s %d %(x)s", "{0} {name} {", "}{", "\\n", "'", '"', "a'b\"c", 'x="1" y=\'2\'', "<c:v>", "&#0;",
            "\u00e9&\u00fc<", "\U0001F600&", "a<b>c</b>", "1 < 2 && 3 > 2",
            # characters some line splitters treat as breaks: they are data like any other (only \n and \v separate in text setters)
-           "line\u2028sep <a>", "para\u2029sep &", "next\u0085line"]
+           "line\u2028sep <a>", "para\u2029sep &", "next\u0085line",
+           # no Unicode normalisation either: a decomposed accent, the Angstrom and Ohm signs, conjoining jamo stay the code points given
+           "cafe\u0301 &", "\u212b\u2126 <1>", "\u1112\u1161\u11ab"]
 
 
 def _native_probe(which, nasties=None):
